@@ -14,6 +14,9 @@ mod c3 {
 mod c4 {
     json_shape_build::include_json_shape!("x");
 }
+mod c5 {
+    json_shape_build::include_json_shape!("names");
+}
 
 fn main() {
     let a: c0::ArrayOfNumber = serde_json::from_str("[1,2]").unwrap();
